@@ -397,6 +397,14 @@ class Prover:
                     atoms_of_bool(cc, v, atoms)
                 for f in fs:
                     atoms_of_bool(f, True, atoms)
+                # congruence by rewriting: an equality between two non-arithmetic terms (indices, references) that
+                # holds in this cofactor is applied to the goal and to the other atoms
+                for a in list(atoms):
+                    if a[0] == 'eq' and self._is_leaf(a[1]) and self._is_leaf(a[2]) and a[1] != a[2]:
+                        src, dst = (a[1], a[2]) if len(show(a[1])) >= len(show(a[2])) else (a[2], a[1])
+                        rw = lambda x, s_=src, d_=dst: d_ if x == s_ else x
+                        g = map_term(g, rw)
+                        atoms = [(b[0], map_term(b[1], rw), map_term(b[2], rw)) if b[0] in NEGCMP else b for b in atoms if b is not a]
                 verdict, detail = self._prove_flat(kind, g, atoms)
             except Infeasible:
                 continue
